@@ -69,8 +69,8 @@ func parseVariant(path string) (*variantSpec, error) {
 			v.Desc = val
 		}
 	}
-	if v.Rule == "" || (v.Kind != "fault" && v.Kind != "benign") {
-		return nil, fmt.Errorf("%s: header needs '# rule:' and '# kind: fault|benign'", path)
+	if v.Rule == "" || (v.Kind != "fault" && v.Kind != "benign" && v.Kind != "repair") {
+		return nil, fmt.Errorf("%s: header needs '# rule:' and '# kind: fault|benign|repair'", path)
 	}
 	return v, nil
 }
@@ -220,6 +220,18 @@ func judgeVariant(v *variantSpec, r variantResult, baseBad map[string]bool) stri
 		}
 	}
 	sort.Strings(newKeys)
+	if v.Kind == "repair" {
+		// a repaired scratch copy: the known finding named by expect must be gone and nothing new may appear
+		for _, k := range r.Bad {
+			if strings.Contains(k.Key, v.Expect) {
+				return "FAILED: rule still fires on the repaired variant at " + k.Key
+			}
+		}
+		if len(newKeys) > 0 {
+			return fmt.Sprintf("FAILED: rule fired on the repaired variant: %v", newKeys)
+		}
+		return "ok: rule silent at the known finding on the repaired variant"
+	}
 	if v.Kind == "fault" {
 		for _, k := range newKeys {
 			if strings.Contains(k, v.Expect) {
